@@ -279,8 +279,27 @@ def payload_bytes(kind, n, rng):
     return bytes(rng.getrandbits(8) for _ in range(n))
 
 
+def twin_payload(seedv, n, second):
+    """Two incompressible payloads of n bytes that differ only by (+1, -2, +1) at two spots: each such triple leaves
+    both Adler-32 sums unchanged, so ANY splice of one packet's head with the other's tail at a fragment boundary
+    between the spots carries a correct checksum although it equals neither packet (an adversarial case for the
+    assumption that zlib rejects mis-assembled packets)."""
+    r = random.Random(seedv)
+    b = bytearray(r.randrange(2, 254) for _ in range(n))
+    if second:
+        for spot in (24, n - 40):
+            b[spot] += 1
+            b[spot + 1] -= 2
+            b[spot + 2] += 1
+    return bytes(b)
+
+
 def make_packet(src, dst, kind, n, rng, ident):
     """An IPv4 frame (with 4-byte tun header) whose payload starts with a unique ident."""
+    if kind.startswith("twin"):
+        which, seedv = kind.split(":")
+        body = struct.pack(">I", 0x7717) + twin_payload(int(seedv), max(80, n - 4), which == "twinB")
+        return proto.tun_frame(proto.ipv4_packet(src, dst, body))
     body = struct.pack(">I", ident) + payload_bytes(kind, max(0, n - 4), rng)
     return proto.tun_frame(proto.ipv4_packet(src, dst, body))
 
